@@ -541,4 +541,16 @@ PLANS["C16"] = {
     "assumptions": ["model = BTreeMap<key,row> + min-leader union-find in harness/relmon/src/main.rs"],
 }
 
+PLANS["C12"] = {
+    "jobs": simple_jobs("c12", 600, 40000, par_n=(40, 3000), witness_dir="witnesses/C12"),
+    "level": "other",
+    "technique": "differential prove<=>check monitor + panic monitor + independent structural proof walker + mutation monitor on the in-tree proof checker (program alterations and single-point proof alterations must be rejected)",
+    "level_text": "For generated proof-supported programs run on a plain and a proofs e-graph: sampled true and false facts must be provable exactly when check succeeds on the plain engine; prove must not panic; every returned proof must be accepted by the in-tree checker against the original program and by an independent structural walker (Trans middle terms, Sym flip, Congr child index and rebuilt term); and the in-tree checker must reject the proof against a program from which a rule it names, or every action and rule mentioning the constructor of one of its Fiat leaves, was removed, and must reject single-point alterations that are unjustified on syntactic grounds (swapped Trans operands whose end terms differ, a Congr index pointing at another argument, a dropped Rule premise, a Fiat leaf equated with a term of another sort).",
+    "level_note": "Checker soundness is a universal claim; this decides it only against the listed alteration classes. Alterations my structural walker still accepts are discarded as semantically neutral. Facts never rest on subsumed rows (no subsume is generated), so prove<=>check is claimed without exclusions. Merge-function alterations are not probed.",
+    "floors": {"quick": {"facts": 6000, "facts_true": 3000, "proofs": 3000, "probes_rule_removed": 1000, "probes_fact_removed": 4000, "probes_proof_altered": 10000, "proofs_with_Rule": 800, "proofs_with_Congr": 1500},
+               "thorough": {"facts": 400000, "facts_true": 200000, "proofs": 200000, "probes_rule_removed": 60000, "probes_fact_removed": 250000, "probes_proof_altered": 600000, "proofs_with_Rule": 50000, "proofs_with_Congr": 100000}},
+    "coverage_extra": lambda c, t: {"explanation": "mutation classes probed on the in-tree checker: rule removed from the checking program (%d), facts/actions removed (%d), proof alterations SwapTrans/CongrIndex/DropPremise/FiatRhs (%d, of which %d discarded as neutral); prove<=>check on %d facts (%d true)" % (c.get("probes_rule_removed", 0), c.get("probes_fact_removed", 0), c.get("probes_proof_altered", 0), c.get("probes_neutral_discarded", 0), c.get("facts", 0), c.get("facts_true", 0))},
+    "assumptions": ["plain engine's check is the reference for provability", "hook verif_check_proof runs the unmodified in-tree ProofStore::check_proof"],
+}
+
 NOT_APPLICABLE = {}
